@@ -122,6 +122,7 @@ func recovery(idx int64, r *rand.Rand) {
 		}
 		q := spec.Queue()
 		probes, reached := 0, false
+		lastProbe := -1
 		for i := 0; i < n; i++ {
 			before := l.EstimatedLimit()
 			rtt := limgen.Baseline(l)
@@ -139,6 +140,12 @@ func recovery(idx int64, r *rand.Rand) {
 			after := l.EstimatedLimit()
 			rt.Count("healthy_samples", 1)
 			if limgen.Baseline(l) == 0 { // probe: baseline reset, estimate dropped to the floor
+				// a probe is only an excuse for not growing if it can be one: the countdown is at least one probe interval
+				if lastProbe >= 0 && i-lastProbe < spec.ProbeInt {
+					viol("healthy-run-pinned-by-probes-more-frequent-than-the-interval", rt.J{"sample": i, "previous_probe_at": lastProbe, "probe_interval": spec.ProbeInt, "estimate": after})
+					return
+				}
+				lastProbe = i
 				probes++
 				if after < spec.Floor() || after > spec.Ceil() {
 					viol("out-of-bounds-after-probe", rt.J{"estimate": after})
@@ -249,6 +256,9 @@ func concurrentSaturated(idx int64, r *rand.Rand) {
 }
 
 func TestCheck(t *testing.T) {
+	if limgen.LargeTables() {
+		rt.Count("shards_started_with_enlarged_lookup_tables", 1)
+	}
 	rt.Cases(15000, 3000000, func(idx int64) {
 		r := rt.CaseRand(7, idx)
 		rt.Case()
